@@ -10,6 +10,11 @@
 (*   "ctor"     plain attribute fixed by the constructor arguments         *)
 (*   "random"   plain attribute drawn at construction (differs between two *)
 (*              constructions)                                             *)
+(*   "closure"  function objects kept by the model (getter / setter of a    *)
+(*              registered prior): deepcopy and pickle do NOT copy functions *)
+(*              - the restored model holds the very same function - so a    *)
+(*              closure is carried correctly only if it reads the module it *)
+(*              is CALLED with and captures no model object                 *)
 (*   "cache"    evaluation-time cache (prediction strategy, memo, kernel   *)
 (*              attribute caches): derived state, tagged with the          *)
 (*              parameter version it was computed from                     *)
@@ -26,7 +31,8 @@
 (***************************************************************************)
 EXTENDS Integers, Sequences, FiniteSets, TLC
 
-CONSTANTS Kinds,        \* set of carrier kinds present in the family (subset of the six above)
+CONSTANTS Kinds,        \* set of carrier kinds present in the family (subset of the kinds above)
+          ClosureCapturesOwner,   \* BOOLEAN: some prior closure reads a captured module instead of its argument (current code: FALSE)
           MaxV, MaxLen
 
 VARIABLES mode, pv, ran,       \* ran: a forward pass has happened (lazy buffers exist)
@@ -48,9 +54,9 @@ Predict == Room /\ mode = "eval" /\ cache' = (IF cache = <<>> THEN <<pv>> ELSE c
 
 \* which carrier kinds of the ORIGINAL reappear with the same content in the restored model
 Carried(mech, k) ==
-  CASE mech = "state_dict" -> k \in {"param", "buffer", "ctor"} \/ (k = "lazybuf" /\ ~ran)   \* nothing to carry before the first forward
-    [] mech = "pickle"     -> TRUE
-    [] mech = "deepcopy"   -> TRUE
+  CASE mech = "state_dict" -> k \in {"param", "buffer", "ctor", "closure"} \/ (k = "lazybuf" /\ ~ran)   \* (closures: those of the fresh construction)   \* nothing to carry before the first forward
+    [] mech = "pickle"     -> (k = "closure" => ~ClosureCapturesOwner)
+    [] mech = "deepcopy"   -> (k = "closure" => ~ClosureCapturesOwner)      \* the copy would keep reading the ORIGINAL's parameters
 \* does the mechanism fail outright (load_state_dict raising on unexpected keys)?
 Raises(mech) == mech = "state_dict" /\ "lazybuf" \in Kinds /\ ran
 
